@@ -294,6 +294,15 @@ func AtomicOps() int { return -1 }
 // Natively package variables cannot be enumerated; harnesses additionally Freeze the exported ones.
 func FreezeGlobals(tag string, pkgs ...string) {}
 
+// PrintEvent is one fmt.Fprintf call seen by the symbolic executor.
+type PrintEvent struct {
+	Format string
+	Args   []interface{}
+}
+
+// PrintLog (intrinsic): the fmt.Fprintf calls made so far; natively nil (the harness parses the text).
+func PrintLog() []PrintEvent { return nil }
+
 // NoOrderLemma (intrinsic): explore every map order also inside the functions covered by an order lemma
 // (used by the lemma harnesses themselves).
 func NoOrderLemma(on bool) {}
